@@ -213,6 +213,28 @@ fn mutate(lines: &[&str], def: &(usize, String, String), how: &str) -> Option<St
     }
 }
 
+/// the numbers and classes the conversion gives to spaces, thermal bridges and windows
+fn values_of(text: &str) -> Value {
+    let t = text.to_string();
+    let n = |x: f32| if x.is_finite() { json!(x as f64) } else { json!("nonfinite") };
+    match crate::corpus::guarded(move || {
+        let bdldata = hulc::bdl::Data::new(&t)?;
+        let data = hulc::ctehexml::CtehexmlData { bdldata, ..Default::default() };
+        let m = bemodel::Model::try_from(&data)?;
+        Ok(serde_json::to_string(&json!({
+            "spaces": m.spaces.iter().map(|s| json!({"name": s.name, "z": n(s.z), "height": n(s.height), "inside_tenv": s.inside_tenv, "multiplier": n(s.multiplier),
+                "kind": format!("{:?}", s.kind), "n_v": s.n_v.map(n), "illuminance": s.illuminance.map(n)})).collect::<Vec<_>>(),
+            "tbs": m.thermal_bridges.iter().map(|t| json!({"name": t.name, "kind": format!("{:?}", t.kind), "l": n(t.l), "psi": n(t.psi)})).collect::<Vec<_>>(),
+            "windows": m.windows.iter().map(|w| json!({"name": w.name, "x": w.geometry.position.map(|p| n(p.x)), "y": w.geometry.position.map(|p| n(p.y)),
+                "width": n(w.geometry.width), "height": n(w.geometry.height), "setback": n(w.geometry.setback)})).collect::<Vec<_>>(),
+        }))?)
+    }) {
+        crate::corpus::Outcome::Ok(t) => json!({"ok": serde_json::from_str::<Value>(&t).unwrap_or(Value::Null)}),
+        crate::corpus::Outcome::Err(e) => json!({"err": e}),
+        crate::corpus::Outcome::Panic(p) => json!({"panic": p}),
+    }
+}
+
 pub fn run(args: &Args) -> i32 {
     let mut cw = CaseWriter::new(&args.out, "cases.jsonl");
     let mut rng = Rng::new(args.seed ^ 0xC02);
@@ -229,6 +251,10 @@ pub fn run(args: &Args) -> i32 {
         let c = if *is_real { Some(&cat) } else { None };
         let base = observe(text, c);
         cw.write(json!({"op": "skelconvert", "kind": if *is_real { "real" } else { "generated" }, "label": label, "impl": base}));
+        if !*is_real {
+            // the values the conversion gives to spaces, thermal bridges and windows (Lean: text -> typed elements -> ConvValues)
+            cw.write(json!({"op": "convvalues", "kind": "values", "label": format!("{label}:values"), "text": text, "impl": values_of(text)}));
+        }
         // mutants: one referenced definition renamed or removed
         let lines: Vec<&str> = text.lines().collect();
         let defs = definitions(&lines);
